@@ -58,3 +58,12 @@ def run(ctx):
     QK22 = __import__("vstatic.engines.equivrules", fromlist=["x"])
     QK22.k22_parent_pointers_are_not_representatives(ctx)
     ctx.floor("K22", 1)
+    # rules shared after round 11: the clause is necessary for this property as well
+    from ..engines import provenance as PV6
+    from ..engines import closure as G6E
+    PV6.a3_recording_sites(ctx)
+    PV6.a4_drop_guard(ctx)
+    G6E.g3_equivalence_paths(ctx)
+    ctx.floor("A3", 7)
+    ctx.floor("A4", 3)
+    ctx.floor("G3", 2)
